@@ -815,6 +815,46 @@ func runScenario(d *driver, kind string) {
 			d.round(li)
 			d.round(li)
 		}
+	case "recoverfault":
+		// systematic FAULT placement inside the recovery: the round crashes right before its (h mod 12)-th operation and
+		// the ((h/12) mod 8)-th storage/lock operation of the following LoadLog fails (alternately not applied / applied).
+		// An instance that cannot complete its recovery refuses to start; the next start, without faults, recovers
+		// (seed C01-6: LoadLog fell back to the published checkpoint when the staging bundle could not be fetched)
+		h := d.enum
+		li := d.boot(0)
+		d.submitMany(li, 2)
+		d.round(li)
+		d.round(li)
+		d.submitMany(li, 3)
+		d.round(li)
+		d.submitMany(li, 2)
+		d.crashWithin(li, h%12)
+		d.round(li)
+		if !d.alive(li) {
+			prev := li
+			li = d.newInstanceLike(prev)
+			target, kind := (h/12)%8, fFail
+			if (h/96)%2 == 1 {
+				kind = fFailApplied
+			}
+			li.in.plan = func(n int, op opInfo) fault {
+				if n == target {
+					d.stats["recoverfault:"+op.kind]++
+					return kind
+				}
+				return fOK
+			}
+			li = d.restartWith(prev, li, true)
+			if li != nil {
+				li.in.plan = nil
+			}
+		}
+		if li != nil && d.alive(li) {
+			d.submitMany(li, 2)
+			d.round(li)
+			d.submitMany(li, 1)
+			d.round(li)
+		}
 	case "cache":
 		li := d.boot(0)
 		d.submitSome(li, 3)
